@@ -73,6 +73,10 @@ def _wound_case(w, kind, extras, perm, dtype, src):
           {"a": "URavel", "dims": gd, "sizes": gs, "name": "<default>"},
           {"a": "UWind", "dims": gd, "sizes": gs, "mode": "dim"},
           {"a": "Ravel", "name": "<default>", "api": "make_linear"}]       # the older (deprecated, still public) name of ravel
+    if kind == "face":
+        for e_ in ev:
+            if e_["a"] == "Wind" and e_["mode"] in ("default", "negaxis"):
+                e_["omit_kind"] = True
     return {"src": src, "w": {"conv": w["conv"], "G": G}, "world": w, "events": ev}
 
 
@@ -148,6 +152,16 @@ def cases(tier: str, seed: int) -> list[dict]:
     out.append(_refused_case(wu, "mc"))
     for kind in ("face", "node"):
         out.append(_wound_case(wu, kind, [("t", 2)], ["t"] + list(W.kind_dims(wu, kind)), "f8", "mc"))
+    # a mesh with as many nodes as faces (eight triangles on eight nodes): sizes alone do not tell the grids apart
+    m8 = {"nodes": [[0, 0], [48, 0], [72, 24], [48, 48], [0, 48], [-24, 24], [12, 24], [36, 24]],
+          "faces": [[0, 1, 6], [1, 7, 6], [1, 2, 7], [2, 3, 7], [3, 6, 7], [3, 4, 6], [4, 5, 6], [5, 0, 6]]}
+    m8["edges"] = [list(e) for e in W.mesh_edges(m8["faces"])]
+    w8 = W.counts_world("ugrid", nface=8, nnode=8, nedge=len(m8["edges"]))
+    w8["mesh"] = m8
+    w8["enc"] = {"edge_dim": "implied", "supplied": ["en"]}
+    for kind in ("face", "node"):
+        out.append(_wound_case(w8, kind, [("t", 2)], ["t"] + list(W.kind_dims(w8, kind)), "f8", "mc"))
+        out.append(_wound_case(w8, kind, [("k", 3)], list(W.kind_dims(w8, kind)) + ["k"], "f4", "mc"))
     # seeded larger shapes
     for _ in range(10 if tier == "quick" else 150):
         conv = rng.choice(W.ALL_CONVS)
@@ -241,7 +255,9 @@ def execute(case: dict) -> dict:
             elif e["mode"] == "dim":
                 kw["linear_dimension"] = lin
             if a == "Wind":
-                res = outcome(lambda: conv.wind(cur, grid_kind=kind_enum(e["kind"]), **kw))
+                # (the face grid is every convention's default grid kind: the argument may be left out)
+                gk = {} if e.get("omit_kind") else {"grid_kind": kind_enum(e["kind"])}
+                res = outcome(lambda: conv.wind(cur, **gk, **kw))
             else:
                 res = outcome(lambda: utils.wind_dimension(cur, dimensions=e["dims"], sizes=e["sizes"], linear_dimension=lin))
             if "ok" in res:
